@@ -11,7 +11,7 @@ well-typed, terminating programs (harness/ocaml/eval/gen.ml, idioms.ml; profiles
 closure, shadow, loops, records, arrays, catch, tailrec, pipe, mix).  Every generated program is compiled
 and run by the tree's real compiler + VM (ASan/UBSan build, harness/common/nevrun.c); result value,
 printed numbers and unhandled exception must equal the evaluator's.  Every program additionally runs
-with one small VM heap (150 or 400 cells instead of 20000, alternating by case) so that collections
+with one small VM heap (150, 220 or 400 cells instead of 20000, rotating by case) so that collections
 happen while frames are suspended; a run that reaches the heap limit is skipped for that
 configuration, any other difference from the evaluator / crash is a violation (replay carries the heap).
   real != evaluator on an accepted program   -> ctx.violation   (shrunk; key = node-kind signature)
@@ -32,7 +32,7 @@ from checks.parts import evaldiff
 
 CORPUS = os.path.join(common.VERIF, "corpus", "C02")
 
-HEAPS = (150, 400)
+HEAPS = (150, 220, 400)
 
 NOT_MODELLED = [
     "generator restriction: a nested function never takes a name that an ADJACENT EARLIER nested function uses for an outer "
